@@ -20,12 +20,6 @@ CONTRACTS = {
         'returns': 'cseq',
         'ensures': ['clen(result) == m', 'cmaxabs(result) <= n', 'not chaszero(result)'],
     },
-    ('cnfgen/formula/cnf.py', 'CNF.__init__'): {
-        'assumed': 'CNF(description=...) is the empty formula over zero variables',
-        'params': {'clauses': 'none', 'description': 'any'},
-        'modifies': ['self._clauses', 'self._numvar'],
-        'ensures': ['self._clauses == cnil', 'self._numvar == 0'],
-    },
     (R, 'RandomKCNF'): {
         'property': ['C13', 'C10'],
         'params': {'k': 'int', 'n': 'int', 'm': 'int', 'seed': 'none', 'planted_assignments': 'any', 'formula_class': 'class:CNF'},
